@@ -12,6 +12,11 @@ Round 5: the containment test may be written with os.path.commonprefix / commonp
 character prefix and does not prove INSIDE); a file-system call in a symbolically executed function whose path the AST policy cannot follow
 is decided by its own fs-confined VC (the policy then only asks that every call site passes a confined directory); a second BOUNDED native
 scope pins the temp dir name (`../<temp dir name>/x` re-enters the private directory: recorded finding, proposed_fixes/C09_2_climbing_names.diff).
+
+Round 6: `contracts/c09_routing.py` -- the nested-archive rule is a suffix test while the extractor of a selected member is chosen by the router:
+(a) the router functions meet the routing specification (C07's contracts, executed on the tree under check), (b) lemma over the two verified
+specifications: a selected base name is never routed to the archive reader (refuted on the unchanged tree: `.gz` / `.bz2` / `.xz` aliases and
+MIME-detected tar names -- recorded finding C09-nested-archive-aliases-are-dispatched, proposed_fixes/C09_3_nested_aliases.diff).
 """
 import os
 
@@ -470,6 +475,7 @@ def known_findings(kf, violations, repo, tier):
     out = []
     vio_ids = {v["id"] for v in violations}
     by_finding = {fid: oid for oid, fid, _b in NATIVE_SCOPES}
+    by_finding[c09_routing.ALIAS_FINDING] = c09_routing.LEMMA_OID
     for f in kf:
         oid = by_finding.get(f.get("id"))
         if oid is None:
@@ -480,7 +486,9 @@ def known_findings(kf, violations, repo, tier):
     return out
 
 
-EXTRA = [policy, native_collisions, native_collisions_known_temp_name]
+from contracts import c09_routing  # noqa: E402
+
+EXTRA = [policy, native_collisions, native_collisions_known_temp_name, c09_routing.routing_conformance, c09_routing.routing_lemma]
 TRUSTED = ["a normalised absolute path equal to abspath(base) or prefixed by abspath(base)+sep lies inside base (no symlinks are created by the reader)",
            "os.path.abspath returns a normalised absolute path",
            "a normalised absolute path that ends in a separator is the file-system root: every normalised absolute path with that prefix lies inside it"]
@@ -488,7 +496,7 @@ ASSUMED_MODELS = ["os.path.abspath/join/splitdrive/isabs/normpath (uninterpreted
                   "os.path.commonpath([a, b]) on normalised absolute paths (== a iff b is a or lies below a)",
                   "os.path.relpath(t, b) on normalised absolute paths (climbs with `..` iff t is neither b nor below b)", "os.sep / os.pardir / os.curdir (POSIX values)", "open/os.makedirs/os.path.exists (effects with confinement obligation)",
                   "archive_extractor._process_archive_entry (C01)", "archive_extractor._is_supported_file_cached (C07/C15)"]
-ASSUMPTIONS = ["PY-STR", "EXC-ANY", "what third-party extractors do with member *bytes* is outside this property's contracts",
+ASSUMPTIONS = ["PY-STR", "EXC-ANY", "os.path.splitext by axioms A1-A3 and an arbitrary MIME database (routing lemma, as in pack C07)", "what third-party extractors do with member *bytes* is outside this property's contracts",
                "OS-level races (symlink swaps in the temp dir by another process) are not modelled"]
 
 REPLAY_UNKNOWN = True    # undecided / out-of-subset items are searched natively (replay) before being reported UNDECIDED
